@@ -153,6 +153,10 @@ pub struct FillCase {
     pub target: u8,
     pub by_bytes: bool,
     pub seed: u64,
+    /// the buffer is created with this size and then `resize`d to `capacity` before the fill
+    /// (None = created with `capacity` directly)
+    #[serde(default)]
+    pub initial_size: Option<usize>,
 }
 
 fn rnd_samples(n: usize, bps: usize, seed: u64) -> Vec<i32> {
@@ -198,17 +202,22 @@ pub fn check_fill(c: &FillCase) -> Outcome {
     } else {
         vec![]
     };
-    let Ok(mut fb) = FrameBuf::with_size(c.channels, c.capacity) else {
+    let Ok(mut fb) = FrameBuf::with_size(c.channels, c.initial_size.unwrap_or(c.capacity)) else {
         out.class("skipped:buffer-arguments-invalid");
         return out;
     };
+    if let Some(s0) = c.initial_size {
+        fb.resize(c.capacity);
+        out.class(if s0 > c.capacity { "history:resized-smaller" } else { "history:resized-larger" });
+    }
     let mut cx = Context::new(c.bps, c.channels);
     let what = format!(
-        "{} into {} ({} ch, capacity {}, bps {}): {} inter-channel samples{}",
+        "{} into {} ({} ch, capacity {}{}, bps {}): {} inter-channel samples{}",
         if c.by_bytes { format!("fill_le_bytes(.., {})", c.nbytes) } else { "fill_interleaved".into() },
         ["FrameBuf", "Context", "(FrameBuf, Context)"][c.target as usize % 3],
         c.channels,
         c.capacity,
+        c.initial_size.map_or(String::new(), |s0| format!(" after resize from {s0}")),
         c.bps,
         c.capacity + c.extra,
         if overfill { format!(" = {} more than the buffer holds", c.extra) } else { String::new() }
@@ -624,12 +633,24 @@ fn fill_grid() -> Vec<Case17> {
                 for (bps, cap) in [(16usize, 64usize), (24, 33), (8, 32)] {
                     let native = (bps + 7) / 8;
                     for extra in [0usize, 1, 2, 31, 64, 1000] {
-                        v.push(Case17::Fill(FillCase { channels, bps, capacity: cap, extra, nbytes: native, target, by_bytes, seed: 3 }));
+                        v.push(Case17::Fill(FillCase { channels, bps, capacity: cap, extra, nbytes: native, target, by_bytes, seed: 3, initial_size: None }));
                     }
                     if by_bytes {
                         for nbytes in [0usize, 1, 2, 3, 4, 5, 8, 9, 255, P32 + 2, usize::MAX] {
-                            v.push(Case17::Fill(FillCase { channels, bps, capacity: cap, extra: 0, nbytes, target, by_bytes, seed: 4 }));
+                            v.push(Case17::Fill(FillCase { channels, bps, capacity: cap, extra: 0, nbytes, target, by_bytes, seed: 4, initial_size: None }));
                         }
+                    }
+                }
+            }
+        }
+    }
+    // histories: created with one size, resized (smaller and larger), then filled
+    for target in [0u8, 2] {
+        for by_bytes in [false, true] {
+            for channels in [1usize, 2, 3] {
+                for (s0, cap) in [(4096usize, 1024usize), (1024, 4096), (100, 150), (150, 100), (64, 32), (32, 33)] {
+                    for extra in [0usize, 1, 2, 50, 1000, 3072] {
+                        v.push(Case17::Fill(FillCase { channels, bps: 16, capacity: cap, extra, nbytes: 2, target, by_bytes, seed: 5, initial_size: Some(s0) }));
                     }
                 }
             }
@@ -707,7 +728,7 @@ pub fn run(ctx: &Ctx) {
             .prop_map(|(channels, bps, capacity, extra, nb, target, by_bytes, seed)| {
                 let native = (bps + 7) / 8;
                 let nbytes = if nb == 6 { native } else { nb };
-                Case17::Fill(FillCase { channels, bps, capacity, extra, nbytes, target, by_bytes, seed })
+                Case17::Fill(FillCase { channels, bps, capacity, extra, nbytes, target, by_bytes, seed, initial_size: if seed % 3 == 0 { Some(32 + (seed / 3 % 600) as usize) } else { None } })
             })
     }, check);
     ctx.search("gen-frame", 16, per * 2, &|| {
